@@ -99,3 +99,83 @@ def gen_osu_doc(r: random.Random, hi: int = 10, keys: int | None = None) -> dict
 def gen_osu_fmt(r: random.Random, knobs: dict) -> dict:
     return dict(newline=knobs.get("stored_newline", "lf"), colours=r.random() < 0.3, space_all=r.random() < 0.2,
                 trailing_newline=r.random() < 0.8, overlay_layer=r.random() < 0.8)
+
+
+# ---------------------------------------------------------------- quaver
+
+QUA_STR = ["Song", "A B", "x", "a: b", "# not a comment", "- dash", "[x]", "{y}", "it's", 'say "hi"', " lead", "trail ", "yes", "no", "null",
+           "~", "123", "1.5", "true", "曲", "Ünï", "a,b", "k: v: w", "@at", "`tick`", "%pct", "!bang", "*star", "&amp", "|pipe", ">gt", "",
+           "multi  space", "emoji 🎵", "0x1F", "1e3", ".inf", "2021-01-01"]
+
+
+def gen_qua_doc(r: random.Random, hi: int = 10) -> dict:
+    keys = r.choice([4, 4, 7, 7, 8])
+    lanes = r.choice([keys, keys, 8])
+    meta = {}
+    pool = dict(
+        AudioFile=lambda: r.choice(["audio.mp3", "a b.ogg", "曲.mp3"]), SongPreviewTime=lambda: r.choice([0, 1000, 12345, 169955]),
+        BackgroundFile=lambda: r.choice(["bg.jpg", "", "背景.png"]), BannerFile=lambda: r.choice(["", "banner.png"]),
+        Genre=lambda: r.choice(QUA_STR), BPMDoesNotAffectScrollVelocity=lambda: r.random() < 0.5,
+        InitialScrollVelocity=lambda: r.choice([1.0, 0.5, 2.0]), HasScratchKey=lambda: r.random() < 0.5,
+        MapId=lambda: r.choice([-1, 123, 99999]), MapSetId=lambda: r.choice([-1, 77]), Mode=lambda: {4: "Keys4", 7: "Keys7", 8: "Keys8"}[keys],
+        Title=lambda: r.choice(QUA_STR), Artist=lambda: r.choice(QUA_STR), Source=lambda: r.choice(QUA_STR),
+        Tags=lambda: r.choice(["", "a", "a b", "t1 t2 t3", "日本 x"]), Creator=lambda: r.choice(QUA_STR),
+        DifficultyName=lambda: r.choice(QUA_STR), Description=lambda: r.choice(QUA_STR),
+        EditorLayers=lambda: [], CustomAudioSamples=lambda: [], SoundEffects=lambda: [],
+    )
+    omit = set(r.sample(["BannerFile", "Genre", "BPMDoesNotAffectScrollVelocity", "InitialScrollVelocity", "HasScratchKey", "Source",
+                         "Description", "EditorLayers", "CustomAudioSamples", "SoundEffects", "MapId", "MapSetId", "SongPreviewTime"],
+                        r.choice([0, 0, 2, 5])))
+    for k, f in pool.items():
+        if k not in omit:
+            meta[k] = f()
+
+    def t():
+        x = r.random()
+        if x < 0.15:
+            return 0
+        if x < 0.7:
+            return r.choice(TIMES_INT)
+        if x < 0.9:
+            return r.randint(-2000, 30000)
+        return round(r.uniform(-1000, 20000), r.choice([1, 3]))
+
+    def put_t(d, v):
+        if v == 0 and r.random() < 0.7:
+            return  # the format omits a zero StartTime
+        d["StartTime"] = v
+
+    tps = []
+    for _ in range(r.choice([0, 1, 1, 1, 2, 3])):
+        d = {}
+        put_t(d, t())
+        if r.random() < 0.9:
+            d["Bpm"] = r.choice([120.0, 175.0, 60.0, 200.5, 87.25, 300, 150])
+        tps.append(d)
+    svs = []
+    for _ in range(r.choice([0, 0, 1, 2, 4])):
+        d = {}
+        put_t(d, t())
+        if r.random() < 0.85:
+            d["Multiplier"] = r.choice([1.0, 0.5, 2.0, 1.01999998, 4.54000664, 0.325713784, -1.0, 10, 0.1])
+        svs.append(d)
+    shape = r.choice(["mixed", "mixed", "mixed", "hits_only", "holds_only", "empty"])
+    n = 0 if shape == "empty" else max(1, size(r, hi))
+    objs = []
+    for _ in range(n):
+        d = {}
+        st = t()
+        put_t(d, st)
+        d["Lane"] = r.randint(1, lanes)
+        hold = shape == "holds_only" or (shape == "mixed" and r.random() < 0.35)
+        if hold:
+            d["EndTime"] = max(int(st), 0) + r.choice([1, 50, 100, 250, 500, 1000, 333, 2000, r.randint(1, 5000)])
+        if r.random() < 0.6:
+            d["KeySounds"] = r.choice([[], [], [dict(Sample=1, Volume=100)], [dict(Sample=2, Volume=50), dict(Sample=3, Volume=80)]])
+        objs.append(d)
+    return dict(meta=meta, tps=tps, svs=svs, objs=objs)
+
+
+def gen_qua_fmt(r: random.Random, knobs: dict) -> dict:
+    return dict(newline=knobs.get("stored_newline", "lf"), allow_unicode=r.random() < 0.7, flow=r.random() < 0.25,
+                width=r.choice([80, 80, 20, 1000]), sections_first=r.random() < 0.2)
